@@ -3,6 +3,7 @@ package harness
 import (
 	"fmt"
 	"strings"
+	"time"
 )
 
 var sharedFields = []HF{{"x-shared-0", "alpha"}, {"x-shared-1", "beta-beta"}, {"x-shared-2", "gamma"}, {"x-shared-3", strings.Repeat("delta", 10)}}
@@ -331,4 +332,123 @@ func c09Nontrivial(w *SrvWorld) bool {
 		}
 	}
 	return off && goodAfter && len(w.Streams) >= 3
+}
+
+// GenC09Timeout: ReadTimeout as a stream-scoped event. Requests complete at scheduler-chosen moments while the fake
+// clock moves in steps around the timeout; some never finish (END_STREAM withheld). A request the server gives up on
+// is reset with CANCEL, no earlier than ReadTimeout after it was opened; everything else is served exactly, and the
+// connection and its compression state go on.
+func GenC09Timeout(r *RNG) *SrvPlan {
+	p := &SrvPlan{Family: "c09-timeout"}
+	mcs := Pick(r, 4, 16)
+	T := Pick(r, time.Second, 5*time.Second)
+	p.Srv = SrvCfg{MaxConcurrentStreams: mcs, PingInterval: Pick(r, time.Duration(-1), -1, -1, 10*time.Second), MaxRequestBodySize: 4096, ReadTimeout: T}
+	p.Peer = PeerCfg{InitialWindow: 1 << 20, MaxFrameSize: -1, HeaderTableSize: Pick(r, int64(-1), 4096, 512), AutoWindow: true, ConnWindowBoost: 1 << 24}
+	o := ReqOpts{MaxBody: 4096, Variety: r.Intn(2) == 0, Splits: r.Intn(2) == 0, Padding: r.Intn(3) == 0, Trailers: false,
+		RespModes: []string{"buffered", "stream-declared"}, RespMaxBody: 5000}
+	n := 2 + r.Intn(min(mcs, 5)-1)
+	for i := 0; i < n; i++ {
+		l := GenRequestLane(r, i, o)
+		if r.Intn(4) == 0 && len(l.Ops) > 1 {
+			// never finished: the peer keeps END_STREAM (and the rest of the body) to itself
+			l.Ops = l.Ops[:1+r.Intn(len(l.Ops)-1)]
+			l.Ops[len(l.Ops)-1].EndStream = false
+			if l.Ops[0].Kind == "headers" {
+				l.Ops[0].EndStream = false
+			}
+			l.Offender = "timeout/never-finished"
+		}
+		p.Lanes = append(p.Lanes, l)
+	}
+	// requests that arrive whenever the scheduler likes, also while requests the server has given up on still have
+	// their handlers running (those keep their slots: a refusal is then in order, more handlers than the limit are not)
+	for k := r.Intn(mcs + 1); k > 0; k-- {
+		l := GenRequestLane(r, len(p.Lanes), o)
+		l.Name = fmt.Sprintf("late%d", len(p.Lanes))
+		p.Lanes = append(p.Lanes, l)
+	}
+	last := GenRequestLane(r, len(p.Lanes), o)
+	last.After = -3
+	p.Lanes = append(p.Lanes, last)
+	p.Trail = "timeouts"
+	p.GateMode = Pick(r, "sched", "sched", "open")
+	p.Mask = genMask(r)
+	p.PoolPol = r.Intn(3)
+	p.Strategy = genStrategy(r)
+	p.Strategy.TimeRace = Pick(r, 0.005, 0.02, 0.1)
+	p.Strategy.TimeSteps = []time.Duration{T / 3, T / 2, T, time.Millisecond, 10 * time.Millisecond}
+	p.SelSeed = r.Uint64()
+	p.Frag = r.Intn(3) == 0
+	return p
+}
+
+// c09TimeoutFinal: judged after the drain and an hour on the fake clock with the peer still connected.
+func c09TimeoutFinal(w *SrvWorld, rep *LifeReport) *Violation {
+	T := w.plan.Srv.ReadTimeout
+	mk := func(rule, sig, d string) *Violation {
+		return &Violation{Property: "C09", Rule: rule, Sig: sig, Detail: d}
+	}
+	for _, g := range w.GoAways {
+		return mk("connection-torn-down", fmt.Sprintf("timeout/goaway-code=%d", g.Code), fmt.Sprintf("GOAWAY(last=%d, code=%d, %.100q) although nothing but request timeouts happened on the connection", g.LastStream, g.Code, g.Debug))
+	}
+	for _, rc := range w.sim.R.Recovers {
+		if !strings.Contains(rc.Value, "injected handler panic") {
+			return mk("recovered-panic", "timeout/recovered-panic/"+siteFunc(rc.Site), fmt.Sprintf("panic recovered at %s: %.600s", rc.Site, rc.Value))
+		}
+	}
+	if w.GaugeHWM > w.plan.Srv.MaxConcurrentStreams {
+		return mk("handler-gauge", "timeout/handler-gauge", fmt.Sprintf("%d handlers were running at once with MaxConcurrentStreams=%d: a request the server gave up on keeps its slot until its handler returns", w.GaugeHWM, w.plan.Srv.MaxConcurrentStreams))
+	}
+	timedOut := map[int]bool{}
+	for i, l := range w.lanes {
+		if l.id == 0 {
+			continue
+		}
+		ps := w.Streams[l.id]
+		if ps != nil && len(ps.RST) > 0 && ps.RST[0] == 8 {
+			age := ps.RSTNow - 1 - l.openedNow
+			if age < T {
+				return mk("premature-timeout", "timeout/premature", fmt.Sprintf("request %d (stream %d) was reset with CANCEL %v after its HEADERS were sent; ReadTimeout is %v", i, l.id, age, T))
+			}
+			timedOut[i] = true
+			w.Probes["timeout-reset"]++
+			if l.lane.Offender == "" {
+				w.Probes["timeout-reset-of-a-finishing-request"]++
+			}
+			continue
+		}
+		if l.lane.Offender != "" && rep.StayedChecked {
+			// never finished, and an hour has passed on the clock: the server must have given up on it
+			if ps == nil || (len(ps.RST) == 0 && ps.EndStreams == 0) {
+				return mk("timeout-missed", "timeout/missed", fmt.Sprintf("request %d (stream %d) was never finished by the peer, ReadTimeout is %v and an hour has passed, but the server has neither reset nor answered it", i, l.id, T))
+			}
+		}
+	}
+	// every other lane: the full exactness oracle
+	var ids []int
+	for i := range w.lanes {
+		ids = append(ids, i)
+	}
+	for _, i := range ids {
+		l := w.lanes[i]
+		if l.lane.Req == nil || l.lane.Offender != "" || timedOut[i] || !l.sentAll {
+			continue
+		}
+		if w.Entries[i] > 1 {
+			return mk("handler-twice", "timeout/handler-twice", fmt.Sprintf("handler entered %d times for request %d", w.Entries[i], i))
+		}
+		if ps := w.Streams[l.id]; w.Entries[i] == 0 && ps != nil && len(ps.RST) > 0 && ps.RST[0] == 7 && (len(timedOut) > 0 || w.overCommitted(l)) {
+			continue // refused while requests the server had given up on still held their slots, or over the limit anyway
+		}
+		if w.Entries[i] == 0 {
+			return mk("handler-never", "timeout/handler-never", fmt.Sprintf("request %d (stream %d) was complete and not reset, but the handler never ran", i, l.id))
+		}
+		if rule, d := checkRequestSeen(l.lane, w.Snaps[i]); rule != "" {
+			return mk(rule, "timeout/"+rule, fmt.Sprintf("request %d (stream %d): %s", i, l.id, d))
+		}
+		if rule, d := checkResponseSeen(i, l.lane.Resp, w.Streams[l.id]); rule != "" {
+			return mk(rule, "timeout/"+rule, fmt.Sprintf("request %d (stream %d): %s", i, l.id, d))
+		}
+	}
+	return nil
 }
